@@ -94,9 +94,9 @@ func blockIDFor(n int) tmproto.BlockID {
 func checkC20(c *Ctx) {
 	c.rule = "in-process mode: PRNG request sequences over a small (height, round, step) cube mixing proposals, prevotes and precommits with increasing, repeated, regressing, conflicting-block-id and timestamp-only variants, the signer being reloaded from its key and state files with probability 1/2 between requests; offline checker over the log of released signatures + independent reads of the state file at every release. Crash mode: a child process signs an increasing stream and reports each release; the parent SIGKILLs it after a PRNG-chosen number of observed releases, then checks the state file against the release log and re-requests the last message. distinct = distinct request sequences with at least one accepted advance, one replay and one refused conflict"
 	c.assumptions = []string{"process death only (no power loss): rename atomicity on a live kernel"}
-	n := c.N(400, 12000)
+	n := c.N(400, 60000)
 	c.Parallel(n, 0, func(i int) { c.signerSequence(i, c.Rng("c20", i)) })
-	kills := c.N(40, 800)
+	kills := c.N(40, 2000)
 	c.Parallel(kills, 8, func(i int) { c.signerKill(100000+i, c.Rng("c20kill", i)) })
 	c.Require("accepted-advances", "same-message-replays", "timestamp-only-replays", "refused-conflicts", "refused-regressions", "reloads", "kills")
 }
